@@ -4,6 +4,9 @@
 // verified result is verified again after the next two inputs, and multi-value routes hold two or
 // three escaped values in variables / operands / a slice before any of them is checked.
 //
+// The escaped expression is not only a variable: shapes.go adds compound operands whose parts carry
+// filters of their own (filter evaluation is re-entrant), in every position.
+//
 // Bounded-exhaustive enumeration of input strings (every code point, every byte string of length
 // <= 2, every string of length <= 5/6 over a 10-symbol alphabet of significant / multi-byte /
 // invalid bytes, every pair and triple of already-escaped forms, long strings, non-string values)
@@ -930,12 +933,16 @@ func main() {
 			"x every route (16 template positions, direct ApplyFilter with the engine's / an empty / no environment, macro text with and without environment) x both names; " +
 			"every verified result is kept and verified again after the escapes of the next two inputs have run; every window of three consecutive inputs of a block also goes through 11 multi-value routes " +
 			"that hold two or three escaped values (set variables, concatenation operands, a macro's set variables, collected ApplyFilter results; registered filter and built-in fallback) before any is looked at; " +
+			"operand shapes (cases 7-shape/...): escape / e applied to 17 compound operands whose parts carry filters of their own (parenthesised concatenation, conditional, array / hash element, " +
+			"after a filter whose argument is itself a filter chain, nested two deep) x 5 positions (print, set, apply block, print inside an apply block, macro body) x both names, for the specials, single bytes (thorough: all byte strings of length <= 2), " +
+			"all pairs and triples of already-escaped forms, all alphabet strings of length <= 4 (thorough 5), boundary lengths, code points below U+0800 (thorough: all) inside a?&, and the non-string values (on the 7 shapes that select the value unchanged); " +
 			"a case is one block of inputs (<= 553 strings) on a fresh engine; non-trivial = the block contains a significant character or a byte >= 0x80",
 		Assumptions: []string{
 			"strings longer than 1 MiB + 5 bytes and alphabet strings longer than the bound are not explored",
 			"in the quick tier code points >= U+3000 are swept inside a?& only (not alone) and on one route per escaping mechanism only (print tag = registered filter, ApplyFilter without environment = built-in fallback, macro text with and without environment); the thorough tier sweeps them on all routes",
 			"the text a non-string value is converted to is taken from the statement for scalars, Stringers, byte slices and named strings, and from the unfiltered print tag of the same engine for lists, maps, structs and errors",
 			"input reaches the filter as a context value; string literals written in template source are the subject of C08/C04",
+			"operand shapes: the text that reaches the escape is known by construction (the input is only concatenated with constants, selected by a condition / an index, or passed through default(v) / replace(k, k)); the operand's own filters (trim, lower, upper, default, replace) act on the constants \" x \" and \"Ab\" and are trusted to give x / ab / AB; shapes are not run on the environment-less fallback (it has no filter but escape) nor in macro text; quick tier: shorter bounds than the plain routes (alphabet length 4, single bytes, code points < U+0800, repeats <= 4097)",
 			"held results: only windows of consecutive inputs of the enumeration order are held together (not all pairs); in the quick tier the template forms of the registered filter and the code point blocks >= U+3000 run one of the two name rotations per window, alternating; results longer than 16 KiB are kept for later re-verification on the direct routes only",
 		},
 		QuickDeadline:    150,
